@@ -1,5 +1,10 @@
 package main
 
+import (
+	"fmt"
+	"go/ast"
+)
+
 // Regenerated tie by translation for C05 (irlib.go): the bodies of IPFilter.Allow and
 // IPFilters.Allow → Gen.FactsC05IR.allowIR / allowAllIR; `allow_regenerated_from_source` and
 // `allowAll_regenerated_from_source` (Props/C05.lean) prove them equal to Model.IPFilter.allow /
@@ -55,6 +60,117 @@ func init() {
 		s.Name = "allowAllIR"
 		s.Binders, s.BNames = "(fs : List Filter) (ip : Option Addr)", []string{"fs", "ip"}
 		s.Recv = irTerm{"fs", "IPFilters"}
-		return irEmit(r, w, file, "IPFilters", "Allow", s, "`filter.Allow(ipstr)` is the model's `allow filter ip`.")
+		if err := irEmit(r, w, file, "IPFilters", "Allow", s, "`filter.Allow(ipstr)` is the model's `allow filter ip`."); err != nil {
+			return err
+		}
+		return c05EmitNew(r, w, file)
 	}})
+}
+
+// c05Mask evaluates a package-level `net.CIDRMask(net.IPv<N>len*8, net.IPv<N>len*8)` to (ones, bits).
+func c05Mask(r *Repo, file, name string) (irTerm, error) {
+	e, err := r.PkgValue(file, name)
+	if err != nil {
+		return irTerm{}, err
+	}
+	switch r.Src(e) {
+	case "net.CIDRMask(net.IPv4len*8, net.IPv4len*8)":
+		return irTerm{"((32, 32) : Nat × Nat)", "Mask"}, nil
+	case "net.CIDRMask(net.IPv6len*8, net.IPv6len*8)":
+		return irTerm{"((128, 128) : Nat × Nat)", "Mask"}, nil
+	}
+	return irTerm{}, fmt.Errorf("%s: unknown mask expression %s", name, r.Src(e))
+}
+
+// c05EmitNew (Extension mux): the local closure `rangerFromIPCIDRs` of `ipfilter.New` — address vs CIDR
+// classification, choice of the mask by family, the IPv4-mapped CIDR conversion — → rangerIR.
+// A spec string is the model's `RawEntry` (what net.ParseIP / net.ParseCIDR make of it); a mask is
+// (ones, bits) = `Mask.Size()`; the ranger is the list of inserted networks.
+func c05EmitNew(r *Repo, w *Lean, file string) error {
+	w.Line("/-! Glue for `ipfilter.New` (Extension mux): `net.IP` = `Option Addr` (nil / classified by `To4()`),")
+	w.Line("`net.IPMask` = (ones, bits) as `Mask.Size()` reports, `net.IPNet` = address + mask. -/")
+	w.Line("structure IPNet where")
+	w.Line("  ip : Option Addr")
+	w.Line("  mask : Nat × Nat")
+	w.Line("")
+	w.Line("/-- `ip.To4()`: nil unless the address is an IPv4 (or IPv4-mapped) address -/")
+	w.Line("def to4 : Option Addr → Option Addr")
+	w.Line("  | some (.v4 n) => some (.v4 n)")
+	w.Line("  | _ => none")
+	w.Line("/-- `net.ParseIP` of a spec string -/")
+	w.Line("def parseIP : RawEntry → Option Addr")
+	w.Line("  | .ip a => some a")
+	w.Line("  | _ => none")
+	w.Line("/-- `net.ParseCIDR` of a spec string: (ip, ipNet, err != nil) -/")
+	w.Line("def parseCIDR : RawEntry → Option Addr × IPNet × Bool")
+	w.Line("  | .cidr a ones bits => (some a, ⟨some a, (ones, bits)⟩, false)")
+	w.Line("  | _ => (none, ⟨none, (0, 0)⟩, true)")
+	w.Line("/-- `len(mask)` in bytes -/")
+	w.Line("def maskBytes (m : Nat × Nat) : Nat := m.2 / 8")
+	w.Line("/-- `mask[n:]` when the dropped bytes are all ones (an IPv4-mapped network has ones ≥ 96) -/")
+	w.Line("def maskDrop (m : Nat × Nat) (n : Nat) : Nat × Nat := (m.1 - 8 * n, m.2 - 8 * n)")
+	w.Line("/-- `ranger.Insert(cidranger.NewBasicRangerEntry(ipNet))`: the network joins the list -/")
+	w.Line("def insertNet (r : List Cidr) (n : IPNet) : List Cidr :=")
+	w.Line("  match n.ip with")
+	w.Line("  | some a => r ++ [⟨a, n.mask.1⟩]")
+	w.Line("  | none => r")
+	w.Line("")
+	m4, err := c05Mask(r, file, "allOnesIPv4Mask")
+	if err != nil {
+		return err
+	}
+	m6, err := c05Mask(r, file, "allOnesIPv6Mask")
+	if err != nil {
+		return err
+	}
+	s := &irSpec{
+		Name:    "rangerIR",
+		Binders: "(es : List RawEntry)",
+		BNames:  []string{"es"},
+		RetTy:   "List Cidr",
+		Params:  []irTerm{{"", "Spec"}},
+		Closure: &irClosure{Params: []irTerm{{"es", "List Entry"}}, Local: true},
+		LeanTy:  map[string]string{"Entry": "RawEntry", "IP": "Option Addr", "Ranger": "List Cidr", "Mask": "Nat × Nat"},
+		Fields: map[string]irField{
+			"IPNet.IP":   {Fmt: "%s.ip", Ty: "IP"},
+			"IPNet.Mask": {Fmt: "%s.mask", Ty: "Mask"},
+		},
+		Funcs: map[string]irCall{
+			"cidranger.NewPCTrieRanger":     {Fmt: "([] : List Cidr)", Ty: "Ranger", NArgs: 0},
+			"net.ParseIP:Entry":             {Fmt: "(parseIP %[1]s)", Ty: "IP", NArgs: 1},
+			"net.ParseCIDR:Entry":           {Fmt: "(parseCIDR %[1]s)", Ty: "IP × IPNet × Error", NArgs: 1},
+			"cidranger.NewBasicRangerEntry": {Fmt: "%[1]s", Ty: "IPNet", NArgs: 1},
+			"len:Mask":                      {Fmt: "(maskBytes %[1]s)", Ty: "Nat", NArgs: 1},
+		},
+		Methods: map[string]irCall{"IP.To4": {Fmt: "(to4 %[1]s)", Ty: "IP", NArgs: 0}},
+		StmtMethods: map[string]irStmtCall{
+			"Ranger.Insert": {Lets: []irLet{{"%[1]s", "Ranger", "(insertNet %[1]s %[2]s)"}}, NArgs: 1},
+		},
+		SliceFrom: map[string]irCall{"Mask": {Fmt: "(maskDrop %[1]s %[2]s)", Ty: "Mask"}},
+		Consts: map[string]irTerm{"allOnesIPv4Mask": m4, "allOnesIPv6Mask": m6,
+			"net.IPv6len": {"(16 : Nat)", "Nat"}, "net.IPv4len": {"(4 : Nat)", "Nat"}},
+		Ignore: irPrefixIgnore("logger."),
+		Ret: func(v []irTerm) (string, error) {
+			if len(v) != 1 || v[0].Ty != "Ranger" {
+				return "", errUnsupportedReturn
+			}
+			return v[0].S, nil
+		},
+	}
+	s.Ext.Composite = map[string]irComposite{
+		"net.IPNet":  {Keys: []string{"IP", "Mask"}, Types: map[string]string{"IP": "IP", "Mask": "Mask"}, Fmt: "(IPNet.mk %[1]s %[2]s)", Ty: "IPNet"},
+		"&net.IPNet": {Keys: []string{"IP", "Mask"}, Types: map[string]string{"IP": "IP", "Mask": "Mask"}, Fmt: "(IPNet.mk %[1]s %[2]s)", Ty: "IPNet"},
+	}
+	// `*ipNet` of the (non-nil after `err == nil`) `*net.IPNet` is the network itself
+	s.Hook = func(t *irT, e ast.Expr, env *irEnv) (irTerm, bool, error) {
+		if se, ok := e.(*ast.StarExpr); ok {
+			x, err := t.expr(se.X, env)
+			if err == nil && x.Ty == "IPNet" {
+				return x, true, nil
+			}
+		}
+		return irTerm{}, false, nil
+	}
+	return irEmit(r, w, file, "", "New", s,
+		"The local closure `rangerFromIPCIDRs` of `New`: `es` = the spec strings as the standard library parses them.")
 }
